@@ -147,13 +147,18 @@ aln_ok = z3.Function('aln_ok', String, Bool)
 key_fn = z3.Function('key_fn', Val, KeyS)                          # an arbitrary sort key on roles
 
 
-def _denth(t, cache):
-    """map z3's internal seq.nth_i / seq.nth_u back to seq.nth and drop the ite they come in"""
+def _denth(t):
+    """map z3's internal seq.nth_i / seq.nth_u back to seq.nth and drop the ite they come in
+    (memoised globally: every sub-term is rewritten once per process)"""
     k = t.get_id()
-    if k in cache:
-        return cache[k]
+    hit = _DENTH.get(k)
+    if hit is not None:
+        return hit[1]
+    if not _has_nth(t):
+        _DENTH[k] = (t, t)
+        return t
     if z3.is_quantifier(t):
-        body = _denth(t.body(), cache)
+        body = _denth(t.body())
         if body.eq(t.body()):
             r = t
         else:
@@ -161,23 +166,48 @@ def _denth(t, cache):
             # bound variables are de Bruijn indices in body(): rebuild through substitute_vars
             inst = z3.substitute_vars(body, *reversed(vs))
             r = z3.ForAll(vs, inst) if t.is_forall() else z3.Exists(vs, inst)
-        cache[k] = r
+        _DENTH[k] = (t, r)
         return r
     if not z3.is_app(t) or t.num_args() == 0:
-        cache[k] = t
+        _DENTH[k] = (t, t)
         return t
-    args = [_denth(c, cache) for c in t.children()]
+    kids = t.children()
+    args = [_denth(c) for c in kids]
     name = t.decl().name()
     if name in ('seq.nth_i', 'seq.nth_u'):
         r = args[0][args[1]]
     elif t.decl().kind() == z3.Z3_OP_ITE and args[1].eq(args[2]):
         r = args[1]
-    elif all(a.eq(b) for a, b in zip(args, t.children())):
+    elif all(a.eq(b) for a, b in zip(args, kids)):
         r = t
     else:
         r = t.decl()(*args)
-    cache[k] = r
+    _DENTH[k] = (t, r)
     return r
+
+
+_HAS_NTH = {}      # ast id -> (ast kept alive, bool): does the term contain seq.nth_i / seq.nth_u
+_DENTH = {}        # ast id -> (ast kept alive, rewritten term)
+
+
+def _has_nth(t):
+    if t.get_id() in _HAS_NTH:
+        return _HAS_NTH[t.get_id()][1]
+    stack = [(t, False)]
+    while stack:
+        e, done = stack.pop()
+        k = e.get_id()
+        if k in _HAS_NTH:
+            continue
+        kids = [e.body()] if z3.is_quantifier(e) else (e.children() if z3.is_app(e) else [])
+        if not done:
+            stack.append((e, True))
+            stack.extend((c, False) for c in kids if c.get_id() not in _HAS_NTH)
+            continue
+        v = (z3.is_app(e) and not z3.is_quantifier(e) and e.decl().name() in ('seq.nth_i', 'seq.nth_u')) \
+            or any(_HAS_NTH[c.get_id()][1] for c in kids)
+        _HAS_NTH[k] = (e, bool(v))
+    return _HAS_NTH[t.get_id()][1]
 
 
 def simp(t):
@@ -186,11 +216,11 @@ def simp(t):
     r = z3.simplify(t)
     if z3.is_true(r) or z3.is_false(r):
         return r
-    if 'seq.nth_' in r.sexpr():
+    if _has_nth(r):
         try:
-            r = _denth(r, {})
+            r = _denth(r)
         except Exception:
             return t
-        if 'seq.nth_' in r.sexpr():
+        if _has_nth(r):
             return t
     return r
